@@ -133,6 +133,10 @@ def fam_limits(nmin: int, nmax: int, *, batch: int = 2, tnames=('TA', 'TB', 'TC'
                 spec = mk_spec(shape, types=types)
                 req = tuple((i, False) for i in range(n))
                 yield Config(spec=spec, requested=req, batch=batch, stutter=stutter)
+                if n > 1 and n <= 3:
+                    # dependents ahead of their dependencies in the coordinator's pending order
+                    yield Config(spec=spec, requested=tuple(reversed(req)), batch=batch, stutter=stutter)
+                    yield Config(spec=spec, requested=((n - 1, False),), batch=batch, stutter=stutter)
                 if faults:
                     for f in range(n):
                         yield Config(spec=spec, requested=req, batch=batch, faults=(f,), stutter=stutter)
